@@ -109,7 +109,17 @@ async def scenario(loop, plan, r):
             pass
         r.cls("earlier-reset:" + ("answered" if prior.get("answer") is not None else "timed-out"))
     for k in range(plan["i"]):
-        await asyncio.wait_for(gw.send_data(bytes([0x10 + k, 1, 2, 3])), 50)
+        try:
+            await asyncio.wait_for(gw.send_data(bytes([0x10 + k, 1, 2, 3])), 50)
+        except asyncio.CancelledError:
+            raise
+        except BaseException as ex:
+            if prior:
+                # every frame was acknowledged by the peer at once: after an earlier reset request (answered or given up)
+                # the link must carry traffic as before
+                r.bad("C11:acknowledged-send-fails-after-earlier-reset", f"send {k} raised {ex!r}; plan {plan}")
+                return
+            raise
     for k in range(plan["j"]):
         feed(refash.enc_data(k, 0, plan["i"] % 8, bytes([0x20 + k, 9, 9, 9])))
         await asyncio.sleep(0.002)
